@@ -1167,6 +1167,177 @@ def _own_transfer(cu: CUnit, g: Graph, node: Node, state: frozenset, tracked: Se
     return [(None, frozenset(st))]
 
 
+_REF_MACROS = ('Py_CLEAR', 'Py_SETREF', 'Py_XSETREF')
+
+
+def rule_member_refs(rep: Report, cu: CUnit) -> None:
+    """typestate of every object-reference MEMBER of the unit's structs, over the statement graph of every function that touches it
+    (helpers that receive the object are entered with the caller's state): the reference a member owns is dropped exactly once."""
+    rep.rule('C11.MEMBER-REF', 'every `PyObject*` member of a struct of the unit owns one reference: a store into it happens only when '
+             'the old reference is gone (Py_CLEAR / Py_XSETREF, or the old value was saved in a local that is released); a release '
+             'that does not clear the member (Py_DECREF / Py_XDECREF) is only left behind by the tp_dealloc function, is never '
+             'followed by a second release (also through a helper), and the tp_dealloc function leaves no member holding one', 3)
+    fields: List[str] = []
+    for n in cu.tu['inner']:
+        if n.get('kind') == 'RecordDecl':
+            fields += [f['name'] for f in n.get('inner', []) if f.get('kind') == 'FieldDecl'
+                       and f.get('type', {}).get('qualType', '').replace(' ', '') == 'PyObject*']
+    if not fields:
+        raise AnalysisError('C11.MEMBER-REF: no PyObject* member found in the structs of _fjcore.c (last_run_last_ops expected)')
+    slot_src = ' '.join(cu.src_of(v) for k_, v in cu.vars.items() if 'slots' in k_)
+    md = re.search(r'Py_tp_dealloc\s*,\s*(?:\(\s*void\s*\*\s*\)\s*)?(\w+)', slot_src)
+    if not md or md.group(1) not in cu.funcs:
+        raise AnalysisError('C11.MEMBER-REF: the Py_tp_dealloc slot of the type was not found')
+    dealloc = md.group(1)
+
+    def is_member(e: Dict[str, Any], f: str) -> bool:
+        e = strip(e)
+        return e.get('kind') == 'MemberExpr' and e.get('name') == f
+
+    def macro_of(n: Dict[str, Any]) -> Optional[str]:
+        t = cu._raw_src(n).strip()
+        return t if t in _REF_MACROS else None
+
+    from collections import deque
+    State = Tuple[str, int]            # (held | null | dangling, 0 | 1 = a local equals the member | 2 = a local keeps the replaced reference)
+    summaries: Dict[Tuple[str, str, State], Set[State]] = {}
+    problems: Dict[str, List[Tuple[str, str]]] = {f: [] for f in fields}
+
+    def touches(fname: str, f: str, seen: Optional[Set[str]] = None) -> bool:
+        seen = seen if seen is not None else set()
+        if fname in seen:
+            return False
+        seen.add(fname)
+        for n in walk(cu.body(fname)):
+            if n.get('kind') == 'MemberExpr' and n.get('name') == f:
+                return True
+            if n.get('kind') == 'CallExpr' and callee(n) in cu.funcs and touches(callee(n), f, seen):
+                return True
+        return False
+
+    def run(fname: str, f: str, entry: State, stack: Tuple[str, ...]) -> Set[State]:
+        key = (fname, f, entry)
+        if key in summaries:
+            return summaries[key]
+        if fname in stack:
+            return {entry}
+        summaries[key] = {entry}
+        g = build_c_cfg(cu, fname)
+        aliases: Set[str] = set()
+        for n in walk(cu.body(fname)):
+            if n.get('kind') == 'VarDecl' and n.get('inner'):
+                init = [c for c in n['inner'] if isinstance(c, dict) and c.get('kind')]
+                if init and is_member(init[-1], f):
+                    aliases.add(n['name'])
+            elif is_assign(n) and strip(n['inner'][0]).get('kind') == 'DeclRefExpr' and is_member(n['inner'][1], f):
+                aliases.add(strip(n['inner'][0])['referencedDecl']['name'])
+        IN: Dict[int, Set[State]] = {g.entry: {entry}}
+        work = deque([g.entry])
+        exits: Set[State] = set()
+
+        def step(node: Node, st: State) -> Set[State]:
+            a = node.ast
+            if not isinstance(a, dict) or node.kind not in ('stmt', 'cond', 'return'):
+                return {st}
+            mac = macro_of(a)
+            if mac:
+                # one statement of the expansion anchors the macro: the declaration that takes the member's address (Py_CLEAR /
+                # Py_SETREF keep `&(op)` in a temporary); the other statements of the expansion are its implementation
+                if any(x.get('kind') == 'UnaryOperator' and x.get('opcode') == '&' and is_member(x['inner'][0], f) for x in walk(a)) \
+                        and a.get('kind') == 'DeclStmt':
+                    if st[0] == 'dangling':
+                        problems[f].append((f'{fname}:{mac}', f'{mac}(..->{f}) after a release that left the member dangling: second release'))
+                    return {('null' if mac == 'Py_CLEAR' else 'held', 0)}
+                return {st}
+            cur: Set[State] = {st}
+            for n in walk(a):
+                k = n.get('kind')
+                nxt: Set[State] = set()
+                for s0, cap in cur:
+                    if k == 'CallExpr':
+                        cn = callee(n)
+                        args = call_args(n)
+                        if 'DECREF' in cn.upper() or cn in ('Py_DecRef', 'Py_XDecRef'):
+                            v = strip(args[0]) if args else {}
+                            if is_member(v, f):
+                                if s0 == 'dangling':
+                                    problems[f].append((f'{fname}:{cn}', f'second release of ->{f} on a path (it was released, not cleared, before) at {cu.site(n, fname)}'))
+                                nxt.add(('dangling', cap))
+                                continue
+                            if v.get('kind') == 'DeclRefExpr' and v['referencedDecl']['name'] in aliases:
+                                if cap == 2:
+                                    nxt.add((s0, 0))
+                                    continue
+                                if cap == 1:
+                                    if s0 == 'dangling':
+                                        problems[f].append((f'{fname}:{cn}', f'second release of ->{f} through the local {cu.src_of(v)} at {cu.site(n, fname)}'))
+                                    nxt.add(('dangling', 0))
+                                    continue
+                        elif cn in cu.funcs and cn != fname and touches(cn, f):
+                            for o in run(cn, f, (s0, 0), stack + (fname,)):
+                                nxt.add((o[0], cap))
+                            continue
+                    elif is_assign(n) and is_member(n['inner'][0], f):
+                        rhs = strip(n['inner'][1])
+                        to_null = int_value(rhs) == 0 or cu.src_of(rhs) in ('NULL', '((void*)0)', '((void *)0)')
+                        if s0 == 'held' and cap != 1:
+                            problems[f].append((f'{fname}:store', f'`{cu.src_of(n)}` at {cu.site(n, fname)} overwrites the member while it may still own a '
+                                                                f'reference (no Py_CLEAR / release of the old value on the path): the old object is leaked'))
+                        nxt.add(('null' if to_null else 'held', 2 if (s0 == 'held' and cap == 1) else cap))
+                        continue
+                    elif ((k == 'VarDecl' and n.get('name') in aliases and n.get('inner')
+                           and is_member([c for c in n['inner'] if isinstance(c, dict) and c.get('kind')][-1], f))
+                          or (is_assign(n) and strip(n['inner'][0]).get('kind') == 'DeclRefExpr'
+                              and strip(n['inner'][0])['referencedDecl']['name'] in aliases and is_member(n['inner'][1], f))):
+                        nxt.add((s0, 1))
+                        continue
+                    nxt.add((s0, cap))
+                cur = nxt
+            return cur
+
+        while work:
+            nid = work.popleft()
+            node = g.nodes[nid]
+            for st in list(IN[nid]):
+                outs = step(node, st)
+                if node.kind == 'return' or not g.succ[nid]:
+                    exits |= outs
+                for m, _lab in g.succ[nid]:
+                    IN.setdefault(m, set())
+                    for o in outs:
+                        if o not in IN[m]:
+                            IN[m].add(o)
+                            work.append(m)
+        exits = exits or {entry}
+        for s0, cap in exits:
+            if cap == 2:
+                problems[f].append((f'{fname}:exit', f'the local that kept the replaced value of ->{f} is not released on a path to the exit of {fname}'))
+            if s0 == 'dangling' and fname != dealloc:
+                problems[f].append((f'{fname}:exit', f'{fname} returns with ->{f} released but not cleared (only {dealloc}, after which the object '
+                                                     f'is gone, may do that): the next release is a second one'))
+        summaries[key] = {(s0, 0) for s0, _ in exits}
+        return summaries[key]
+
+    called = {callee(n) for fn_ in cu.funcs for n in walk(cu.body(fn_)) if n.get('kind') == 'CallExpr'}
+    for f in fields:
+        n_fn = 0
+        for fname in cu.funcs:
+            # a helper of the unit is judged where it is called, with the state its caller built (a store after the caller's Py_CLEAR)
+            if fname in called or not (touches(fname, f) or fname == dealloc):
+                continue
+            n_fn += 1
+            before = len(problems[f])
+            outs = run(fname, f, ('held', 0), ())
+            if fname == dealloc and any(s0 == 'held' for s0, _ in outs):
+                problems[f].append((f'{dealloc}:exit', f'{dealloc} can end with ->{f} still owning its reference: leaked with the object'))
+            mine = [d for c_, d in problems[f][before:]]
+            rep.check(not mine, 'C11.MEMBER-REF', f'{fname}:->{f}', 'stores only over a cleared member; one release per path'
+                      + (' and the member is released when the object dies' if fname == dealloc else '') if not mine else '; '.join(dict.fromkeys(mine)),
+                      cu.site(cu.func(fname), fname))
+        if n_fn < 2:
+            raise AnalysisError(f'C11.MEMBER-REF: ->{f} is touched by {n_fn} functions only (a setter and {dealloc} expected)')
+
+
 def rule_errors(rep: Report, cu: CUnit) -> None:
     rep.rule('C11.ERRORS', 'every `return NULL` / `return -1` of a function exposed to Python is reached only after a call that '
              'sets the Python error indicator (PyErr_*, a failing CPython API, or a helper that sets it)', 10)
@@ -1353,6 +1524,7 @@ def check(rep: Report, repo: Optional[Repo] = None) -> None:
     from ..spec.machine import ROLES_C as M_ROLES_C
     repo = repo or Repo()
     cu = CUnit(repo)
+    rule_member_refs(rep, cu)          # reads the reference macros as clang expands them: before any local is read through
     # outside the run loops (which have their own structural analyses and keyed findings) a local that merely names an expression
     # (`Slot* const slots = self->slots`, `index_mask = count - 1`, `kept = self->list`) reads as that expression
     n_inl = sum(cu.inline_pure_locals(f) for f in cu.funcs if f not in M_ROLES_C and not any(
